@@ -238,9 +238,19 @@ def specHuge (cx : Ctx) (line : String) : Option SExp :=
     match parseSegs recvTok with
     | none => none
     | some segs =>
-      if segs.any (fun sg => match sg with | .sliceMut .. | .sliceShared .. => true | _ => false) then none else
       let root : SRecv := { v := ⟨⟨0, 0⟩, t.numCols, t.numRows, t.numCols⟩, isRoot := true, isMut := true, isView := false }
-      match specResolve t segs root with
+      -- a view built directly over (a prefix of) the array's buffer: accepted iff the prefix exists, the shape is valid and fits
+      let resolved : Option (Option SRecv) :=
+        match segs with
+        | [.sliceMut c r n] | [.sliceShared c r n] =>
+          let isMut := match segs with | [.sliceMut ..] => true | _ => false
+          if n ≤ cx.prev.l ∧ specShapeOk c r ∧ c * r ≤ n then
+            some (some { v := ⟨⟨0, c * r⟩, c, r, c⟩, isRoot := false, isMut := isMut, isView := true })
+          else some none
+        | _ =>
+          if segs.any (fun sg => match sg with | .sliceMut .. | .sliceShared .. => true | _ => false) then none
+          else specResolve t segs root
+      match resolved with
       | none => none
       | some none => some .panic
       | some (some rc) =>
